@@ -136,6 +136,31 @@ def per_side_cuts(ck, rule, cut_bounds, impls, LS, RS):
                 ck.judge(bool(ok), rule, f"{short(m)}:characteristics", where(m, pa.node),
                          "characteristics are taken from (left sub-run, right sub-run) with the same label getter",
                          found="; ".join(T.show(x)[:80] for x in a))
+                if ok:
+                    # which axis: a peak position is the diagonal r - q of its segment; both coordinates ascend along a chain on
+                    # both strands (C11.1), so when the left diagonal is the larger one the two runs overlap on the *reference*
+                    # axis and must be cut on reference labels, otherwise on query labels - whatever the strand
+                    on_reference = "Reference" in a[0][1].split(".")[-1]
+                    want = T.mk_gt(T.mk_attr(T.mk_attr(LS, "peak"), "position"), T.mk_attr(T.mk_attr(RS, "peak"), "position"))
+                    tv = T.specialize(T.as_bool(want), pa.facts, boolpos=True)
+                    decided = tv[1] if tv[0] == "c" and isinstance(tv[1], bool) else None
+                    strand = [c for c, _, _ in pa.state.assumptions
+                              if any(x[0] == "attr" and x[2] in ("reverse", "reverseStrand") for x in T.subterms(c))]
+                    axis = "reference" if on_reference else "query"
+                    if strand:
+                        ck.violation(rule, f"{short(m)}:axis", where(m, pa.node), "the axis on which the overlap is cut depends on the "
+                                     "strand: mirrored query coordinates ascend on both strands, the geometry of the overlap does not "
+                                     "change with it", found=f"{axis} labels when " + pa.describe()[:200],
+                                     required="reference labels iff left peak position > right peak position, on both strands")
+                    elif decided is None:
+                        raise AnalysisError(f"{where(m, pa.node)}: the test that chooses the cut axis is not a comparison of the two "
+                                            f"sub-runs' peak positions: {pa.describe()[:200]}")
+                    else:
+                        ck.judge(decided == on_reference, rule, f"{short(m)}:axis", where(m, pa.node),
+                                 "the overlap is cut on reference labels exactly when the left sub-run's diagonal (peak position) is "
+                                 "the larger one - then the runs overlap on the reference axis - and on query labels otherwise",
+                                 found=f"{axis} labels when left peak position {'>' if decided else '<='} right peak position",
+                                 required="reference labels iff left.peak.position > right.peak.position")
 
 
 
@@ -179,6 +204,25 @@ def run(ck):
     ck.clause("C15.3", "removed positions come from the own conflicting sub-segment; sub-segments are slices over the overlap")
     ck.clause("C15.4", "slice window: drop what lies before `start` on both sequences; only an aligned pair beyond `end` closes the sub-run")
     ck.clause("C15.5", "each sub-run is cut at the index from its own index table, both at the same merge index")
+    ck.clause("C15.10", "a segment ends at the first position of its maximum (strict accept test), so it ends on a pair and the "
+                        "sub-run slices of conflict resolution are contiguous (as C13.1)")
+    from ..report import RuleView as _RV
+    from . import c13 as _c13
+    _c13.run(_RV(ck, {"C13.1": "C15.10"}))
+    ck.clause("C15.11", "the type tests that pick a segment's reference / query labels can succeed: the elements of a segment are "
+                        "Scored* wrappers, a test against a class no element can be an instance of silently stops counting unpaired labels")
+    from ..rules.narrow import findings as _narrow
+    _seg_fns = [f for f in p.nontest_functions() if f.module.name == "src.alignment.segments" and not f.is_lambda]
+    _dead = 0
+    for f in _seg_fns:
+        for kind, node, text in _narrow(ctx, f):
+            if kind == "dead-test":
+                _dead += 1
+                ck.violation("C15.11", short(f) + ":" + ast.unparse(node)[:60], where(f, node), text, found=ast.unparse(node),
+                             required="a test some element of the list can satisfy (e.g. the wrapper class, then its .position)")
+    ck.floor("C15.11 functions of segments.py scanned", len(_seg_fns), 25)
+    if not _dead:
+        ck.ok("C15.11", "segments.py", "src/alignment/segments.py", f"{len(_seg_fns)} functions: every isinstance test is satisfiable for the declared element type")
     ck.clause("C15.6", "conflict test detects every overlap: other.start <= self.end (on any sequence) is among its disjuncts")
     seg = p.find_class("AlignmentSegment")
     base_pair = p.find_class("_SegmentPair")
